@@ -164,6 +164,19 @@ func c10InputsOne(tier string, tight bool) []c10Input {
 					w := b.Done()
 					w.PodGroup("m").Spec.MinMember = mm
 					add("subgroup-graph", fmt.Sprintf("subgroups parents=[%s %s %s] min=%d", sgParents[a], sgParents[bq], sgParents[c], mm), w)
+					if tight {
+						// the same pod group with two of its pods RUNNING on the only node (queue over quota): the
+						// healthy workload has to reclaim from it, so the malformed group is seen as a victim too
+						b := healthyBase()
+						b.GQueue("qm", "ok-dept", 1, -1, 1)
+						ps := pods(3, shG1, "", "")
+						ps[0].SubGroup, ps[1].SubGroup, ps[2].SubGroup = "a", "b", "c"
+						ps[0].State, ps[0].Node, ps[1].State, ps[1].Node = world.StRunning, "ok-node", world.StRunning, "ok-node"
+						b.Workload(world.WL{Name: "m", Queue: "qm", MinMember: mm, SubGroups: sgs, Pods: ps})
+						w := b.Done()
+						w.PodGroup("m").Spec.MinMember = mm
+						add("subgroup-graph-running-victim", fmt.Sprintf("subgroups parents=[%s %s %s] min=%d running", sgParents[a], sgParents[bq], sgParents[c], mm), w)
+					}
 				}
 			}
 		}
